@@ -92,7 +92,8 @@ type ssaRendering struct {
 	StarStyle     bool     `json:"star_style"`
 	KeySpace      bool     `json:"key_space"` // "Key: value" vs "Key:value"
 	CommentInBody bool     `json:"comment_in_body"`
-	TrueAs        string   `json:"true_as"` // "-1" (specification)
+	TrueAs        string   `json:"true_as"`                // "-1" (specification)
+	EventsFirst   bool     `json:"events_first,omitempty"` // the events section comes before the styles section
 }
 
 func fmtSSATime(cs int64, short bool) string {
@@ -206,6 +207,8 @@ func renderSSA(d ssaDoc, r ssaRendering) []byte {
 		emit("Unknown Key: ignored value")
 	}
 	emit("")
+	head := lines
+	lines = nil
 	if len(d.Styles) > 0 {
 		emit(r.StylesHeader)
 		cols := append([]string(nil), r.StyleCols...)
@@ -240,6 +243,8 @@ func renderSSA(d ssaDoc, r ssaRendering) []byte {
 		emit("Dialogue: 0,0:00:00.00,0:00:01.00,not an event")
 		emit("")
 	}
+	stylesBlock := lines
+	lines = nil
 	emit(r.EventsHeader)
 	sep := ","
 	if r.FormatSpace {
@@ -297,6 +302,11 @@ func renderSSA(d ssaDoc, r ssaRendering) []byte {
 		if r.Junk && i == 0 {
 			emit("junk line between events")
 		}
+	}
+	if r.EventsFirst {
+		lines = append(append(head, append(lines, "")...), stylesBlock...)
+	} else {
+		lines = append(append(head, stylesBlock...), lines...)
 	}
 	var sb strings.Builder
 	if r.BOM {
@@ -813,6 +823,7 @@ func genSSARendering(t *rapid.T, cols map[string]bool) ssaRendering {
 		StarStyle:     rapid.IntRange(0, 3).Draw(t, "star") == 0,
 		KeySpace:      rapid.IntRange(0, 3).Draw(t, "keyspace") > 0,
 		CommentInBody: rapid.IntRange(0, 3).Draw(t, "cbody") == 0,
+		EventsFirst:   rapid.IntRange(0, 4).Draw(t, "eventsfirst") == 0,
 		TrueAs:        "-1",
 	}
 	if r.V4Plus {
